@@ -367,8 +367,67 @@ fn client_reply(run: &Run, fusedev: bool) -> Option<Vec<u8>> {
     }
 }
 
+/// notifications: Server::notify_inval_entry / notify_inval_inode / notify_resend
+fn exec_notify(cx: &Ctx, line: &str, kv: &Kv, out: &mut Out) -> String {
+    let cap = kn(kv, "cap") as usize;
+    let server = Server::new(ScriptFs::new(kv.clone()));
+    let mut scratch = vec![0u8; cap];
+    let kind = ks(kv, "notify").to_string();
+    let name = unhex(ks(kv, "name"));
+    let res = catch_unwind(AssertUnwindSafe(|| {
+        let w = FuseDevWriter::<()>::new(cx.sock.0, &mut scratch).unwrap();
+        match kind.as_str() {
+            "entry" => {
+                let mut n = name.clone();
+                n.push(0);
+                let c = std::ffi::CStr::from_bytes_with_nul(&n).unwrap();
+                server.notify_inval_entry(w, kn(kv, "parent"), c).map(|n| n as i64)
+            }
+            "inode" => server.notify_inval_inode(w, kn(kv, "ino"), kn(kv, "off"), kn(kv, "len")).map(|n| n as i64),
+            _ => server.notify_resend(w).map(|_| -1),
+        }
+    }));
+    let recs = drain(cx.sock.1);
+    let total: usize = recs.iter().map(|r| r.len()).sum();
+    let ret = match res {
+        Ok(Ok(n)) => format!("ok:{}", if n < 0 { total as i64 } else { n }),
+        Ok(Err(e)) => format!("err:{}", err_name(&e)),
+        Err(_) => "panic".into(),
+    };
+    let mut oracle = |key: String, what: String, out: &mut Out| {
+        let v = serde_json::json!({"prop": "C03", "key": key, "case": line, "what": what});
+        use std::io::Write;
+        writeln!(out.oracle, "{}", v).unwrap();
+        out.n_oracle += 1;
+    };
+    if recs.len() > 1 {
+        oracle(format!("C03:notify:{}:multi-write", kind), format!("{} writes", recs.len()), out);
+    }
+    if let Some(m) = recs.first() {
+        let code = match kind.as_str() { "entry" => 3, "inode" => 2, _ => 7 };
+        let bad = m.len() < 16 || le32(m, 0) as usize != m.len() || le32(m, 4) != code || le64(m, 8) != 0
+            || match kind.as_str() {
+                "entry" => m.len() != 32 + name.len() + 1 || le64(m, 16) != kn(kv, "parent") || le32(m, 24) as usize != name.len()
+                    || m[32..32 + name.len()] != name[..] || m[32 + name.len()] != 0,
+                "inode" => m.len() != 40 || le64(m, 16) != kn(kv, "ino") || le64(m, 24) != kn(kv, "off") || le64(m, 32) != kn(kv, "len"),
+                _ => m.len() != 16,
+            };
+        if bad {
+            oracle(format!("C03:notify:{}:encoding", kind), format!("notification bytes {}", hex(m)), out);
+        }
+    } else if ret.starts_with("ok") && cap >= 4096 {
+        oracle(format!("C03:notify:{}:missing", kind), "no message written".into(), out);
+    }
+    out.class(&format!("notify|{}|{}", kind, ret.split(':').next().unwrap_or("")));
+    let sys: Vec<String> = recs.iter().map(|b| hex(b)).collect();
+    format!("sys={} ret={}", sys.join(","), ret)
+}
+
 fn exec(cx: &Ctx, line: &str, out: &mut Out) -> String {
     let kv = parse_kv(line);
+    if kv.contains_key("notify") {
+        return exec_notify(cx, line, &kv, out);
+    }
     let fusedev = ks(&kv, "t") == "fusedev";
     let req = unhex(ks(&kv, "req"));
     let run = run_case_logged(cx, &kv);
@@ -690,6 +749,20 @@ fn main() {
     let prop = a.get("prop").cloned().unwrap_or_else(|| "C01".into());
     let mut_pct: u64 = a.get("mutpct").and_then(|s| s.parse().ok()).unwrap_or(match prop.as_str() { "C01" => 50, "C20" => 35, "C12" => 5, _ => 10 });
     let mut r = Prng::new(seed ^ 0x5127);
+    if prop == "C03" {
+        for i in 0..(n / 20).max(60) {
+            let kind = ["entry", "inode", "resend"][(i % 3) as usize];
+            let cap = match r.below(8) { 0 => 0, 1 => 15, 2 => 16, 3 => 31, 4 => 32, 5 => 40, _ => r.range(41, 5000) };
+            let line = match kind {
+                "entry" => { let nm = srvgen::gen_name(&mut r); format!("notify=entry cap={} parent={} name={}", cap, r.field(64), hex(&nm)) }
+                "inode" => format!("notify=inode cap={} ino={} off={} len={}", cap, r.field(64), r.field(64), r.field(64)),
+                _ => format!("notify=resend cap={}", cap),
+            };
+            out.stat(&format!("notify:{}", kind));
+            let o = exec(&cx, &line, &mut out);
+            out.case(&line, &o);
+        }
+    }
     for i in 0..n {
         let op = if prop == "C12" { 26 } else if i < 2 * srvgen::ALL_OPS.len() as u64 { srvgen::ALL_OPS[(i as usize) % srvgen::ALL_OPS.len()] } else { *r.pick(srvgen::ALL_OPS) };
         let mutate = r.below(100) < mut_pct;
